@@ -357,6 +357,7 @@ func (db *DB) OpenTransaction() (*Transaction, error) {
 		mem: db.mpoolGet(0),
 	}
 	tr.mem.incref()
+	verifAt("x.otx.register")
 	db.trMu.Lock()
 	db.tr = tr
 	closed := db.isClosed()
